@@ -594,7 +594,8 @@ class C07(core.Check):
         return out
 
     def gen_cases(self, rng: random.Random, tier: str) -> List[dict]:
-        n = 200 if tier == "quick" else 2400
+        # quick: 128 random assemblies + the structured families below (about 300 cases, < 30 s wall unloaded); the bulk is thorough's
+        n = 128 if tier == "quick" else 2400
         cases = [self._asm_case(rng) for _ in range(n)]
         cases += [self._face_case(rng) for _ in range(n // 4)]
         cases += [self._revolve_case(rng) for _ in range(n // 8)]
